@@ -339,6 +339,17 @@ pub fn check_graph(c: &GraphCase, acc: &mut Acc, record: bool) -> Verdict {
             let mut nb = Vec::new();
             var_u32(bad, &mut nb);
             t.splice(off..off + len, nb);
+            // a stream that was decoded earlier on this thread had more objects than this one: its table is history
+            {
+                let k = n_objects + 3;
+                let chain = Graph { labels: (0..k as u32).collect(), edges: (0..k).map(|i| if i + 1 < k { vec![i + 1] } else { vec![] }).collect() };
+                let (cb, _, _) = model_bytes(&chain, Fl { th: false, tag: false });
+                let mut prior = Vec::new();
+                let mut pctx = DeserializationContext::new(&cb);
+                let _ = guarded(|| de_slot(&mut pctx, &mut prior, 0, Fl { th: false, tag: false }).map(|_| ()));
+                drop(pctx);
+                unlink(&prior);
+            }
             let mut all = Vec::new();
             let mut ctx = DeserializationContext::new(&t);
             let r = guarded(|| de_slot(&mut ctx, &mut all, 0, fl).map(|_| ()).map_err(|e| vcat::errinfo(&e).kind));
